@@ -14,11 +14,15 @@ type Value interface{}
 
 // Str is a Go string: either concrete, or a fixed-length sequence of byte terms.
 type Str struct {
-	s   string
-	sym []*Term // non-nil => symbolic bytes (len(sym) is the length)
+	s    string
+	sym  []*Term // non-nil => symbolic bytes (len(sym) is the length)
+	rope []piece // non-nil => formatted rope (see fmt.go); length unknown
 }
 
 func (s Str) Len() int {
+	if s.rope != nil {
+		panic(pathEnd{kind: "unsupported", msg: "length/indexing of a symbolic formatted string (rope)"})
+	}
 	if s.sym != nil {
 		return len(s.sym)
 	}
@@ -26,6 +30,9 @@ func (s Str) Len() int {
 }
 
 func (s Str) Concrete() (string, bool) {
+	if s.rope != nil {
+		return "", false
+	}
 	if s.sym == nil {
 		return s.s, true
 	}
@@ -498,6 +505,9 @@ func (in *Interp) eqVal(a, b Value) *Term {
 
 func (in *Interp) strEq(a, b Str) *Term {
 	tt := in.tt
+	if a.rope != nil || b.rope != nil {
+		return in.ropeEq(a, b)
+	}
 	if a.Len() != b.Len() {
 		return tt.False
 	}
@@ -534,6 +544,9 @@ func (in *Interp) strLess(a, b Str) *Term {
 }
 
 func (in *Interp) concat(a, b Str) Str {
+	if a.rope != nil || b.rope != nil {
+		return in.mkRope(append(append([]piece{}, in.strToPieces(a)...), in.strToPieces(b)...))
+	}
 	if a.sym == nil && b.sym == nil {
 		return Str{s: a.s + b.s}
 	}
@@ -570,6 +583,9 @@ func (in *Interp) describe(v Value, depth int) string {
 	case Str:
 		if s, ok := x.Concrete(); ok {
 			return fmt.Sprintf("%q", s)
+		}
+		if x.rope != nil {
+			return "<rope>"
 		}
 		return fmt.Sprintf("<symstr len %d>", x.Len())
 	case Ptr:
